@@ -380,6 +380,8 @@ def gen_item(rng, tier, ver="3.7"):
         if rng.chance(0.3):
             g["line_tail"] = rng.choice(["noline", "noline", 3, 100])
         if rng.chance(0.2):
+            g["extarg"] = rng.randint(1, 2 ** 32)
+        if rng.chance(0.2):
             g["firstlineno"] = rng.choice([0, 0, 1, 2 ** 31 - 2000])  # absolute line numbers 0, or near the C int limit
         item["graft"] = g
     return item
@@ -534,6 +536,8 @@ def exec_exchange(plan, tree, prop, log=None):
                 log.count("docs_with_surrogate_string")
             if '"positional_only"' in D:
                 log.count("docs_with_positional_only_args")
+            if '"_n_args_override": 5' in D or '"_n_args_override": 6' in D:
+                log.count("docs_with_5_or_more_code_units_jump")
             if '"_additional_line"' in D:
                 log.count("docs_with_additional_line")
                 if '"line": null' in D:
